@@ -211,6 +211,13 @@ def generate(rng, index, cfg):
         big = nbgen.notebook(rng, max_cells=3, minor=4)
         big["cells"].append({"cell_type": "markdown", "metadata": {}, "source": "".join(rng.choice(nbgen.VOCAB) for _ in range(rng.choice([500, 3000])))})
         upload_pool.append(big)
+    if mode in OUTPUT_NAME and rng.random() < 0.08:
+        # a notebook with an embedded image: a store body of more than a megabyte (tornado's own limit is 100 MB)
+        huge = nbgen.notebook(rng, max_cells=1, minor=4)
+        huge["cells"].append({"cell_type": "code", "execution_count": 1, "metadata": {}, "source": "plot()",
+                              "outputs": [{"output_type": "display_data", "metadata": {},
+                                           "data": {"image/png": ("iVBORw0KGgo" + "%08x" % rng.getrandbits(32)) * rng.choice([70000, 160000]) + "\n"}}]})
+        upload_pool.append(huge)
     world["alternates"] = [nbgen.edit(rng, files[rng.choice(GOOD[:3])]) for _ in range(3)]
 
     def name(good=True):
